@@ -94,6 +94,8 @@ class GatedLoop:
         if self.real.is_closed():
             return self.real.call_soon_threadsafe(cb, *args)      # raises RuntimeError
         ctx = context if context is not None else contextvars.copy_context()
+        if not self.real.is_running():
+            self.rig.raced.append(self.rig.cur_text)      # handed to a loop nobody runs right now
         self.rig.loop_pending.append((self.real, cb, args, ctx, self.rig.cur_text))
         return None
 
@@ -255,6 +257,8 @@ class Rig:
         self.crashed = []
         self.exts = collections.deque()
         self.closers = []
+        self.handed_via_loop = []
+        self.raced = []      # batches handed to / left on a loop that was not running (start/stop race)
         self.fail_next_render = False
         self.render_failures = 0
         self.run_app_kwargs = {}
@@ -313,9 +317,12 @@ class Rig:
             if self.gated:
                 self.gate.arrive("deliver")
             self.handed.append(text)
+            self.handed_via_loop.append(loop is not None)
             real = loop.real if isinstance(loop, GatedLoop) else loop
             if isinstance(loop, GatedLoop) and not self.gated:
                 loop = real
+            if loop is real and real is not None and not real.is_running():
+                self.raced.append(text)      # handed to a loop nobody runs right now
             try:
                 return orig_waf(loop, text)
             except BaseException:
@@ -527,6 +534,7 @@ class Rig:
         elif k == 10:
             if self.loop_pending:
                 self.flags.add("stop-with-pending-callback")
+                self.raced.extend(t[4] for t in self.loop_pending)
             if not self.host.idle.wait(T_STEP):
                 raise RigTimeout("run_async did not return")
         elif k == 11:
@@ -657,6 +665,8 @@ class Rig:
                 if lp.is_closed():
                     self.lost.append(txt)
                 else:
+                    if not lp.is_running():
+                        self.raced.append(txt)
                     lp.call_soon_threadsafe(cb, *args, context=cctx)
             self.gated = False
             self.gate.open()
